@@ -33,7 +33,7 @@ def run(tier, t0):
     rng = random.Random(C.seed())
     # pool: the special queries and a sample of the SQL texts of the relational engine
     wd = C.workdir("det")
-    rel_sql = sorted({l["sql"] for l in C.read_ndjson(os.path.join(C.WORK, "rel", "cases.ndjson"))}) if os.path.exists(os.path.join(C.WORK, "rel", "cases.ndjson")) else []
+    rel_sql = sorted({l["sql"] for l in rel["case_list"]})
     pool = SPECIAL + rng.sample(rel_sql, min(len(rel_sql), 150 if tier == "quick" else 1500))
     db0 = {"t": {"rows": []}, "u": {"rows": []}}
     case = {"threads": 3, "tables": sqlgen.tables(db0, variant=0), "queries": pool, "schedule": [2, 1, 3, 3, 1, 2, 1, 2, 3]}
@@ -99,9 +99,17 @@ MCPrefixes == {{{", ".join('"%s"' % p for p in prefixes)}}}
         e = trace[i - 1]
         if e["ev"] == "job":
             sql = pool[e["q"]]
-            feat = "uses_random()" if "random()" in sql.lower() else sql[:120]
+            first = next(x for x in trace if x["ev"] == "job" and x["q"] == e["q"])
+            differing = [n for n, a, b in zip(("outcome", "debug", "display", "rendered", "names"), first["sig"], e["sig"]) if a != b]
+            if "random()" in sql.lower():
+                feat = "uses_random()"
+            elif differing == ["debug"]:
+                # same display, same rendered SQL, same names: only a field the Display does not show differs
+                feat = "only-the-Debug-rendering-differs"
+            else:
+                feat = sql[:120]
             rep.fail(f"{judge}/{feat}", f"judge {judge}: the output of compiling the same query differs between two runs",
-                     {"engine": "det-run", "case": {"sql": sql, "where": {k: e[k] for k in ("phase", "thread", "pos", "proc")}, "tables": "t(a,b,s), u(a,c) of spec/QueryShapes.tla"}})
+                     {"engine": "det-run", "case": {"sql": sql, "differing": differing, "where": {k: e[k] for k in ("phase", "thread", "pos", "proc")}, "tables": "t(a,b,s), u(a,c) of spec/QueryShapes.tla"}})
         else:
             rep.fail(f"{judge}/{e.get('prefix')}", "a counter draw did not follow the previous one", {"engine": "det-run", "case": e})
     for f in rel["failures"]:
